@@ -950,11 +950,24 @@ pub fn spawn(
     }
     let mut file_args = Vec::new();
     let mut emit_stdout = false;
+    let mut skip_value = false;
     for arg in &spec.args {
         let s = arg.to_string_lossy();
-        if s == "--emit=stdout" || s == "--emit" {
+        if skip_value {
+            // the value of the preceding option (`--edition 2021`, `--config a=b`, ...)
+            skip_value = false;
+            if s == "stdout" {
+                emit_stdout = true;
+            }
+            continue;
+        }
+        if s == "--emit=stdout" {
             emit_stdout = true;
-        } else if s == "stdout" && emit_stdout {
+        } else if matches!(
+            s.as_ref(),
+            "--emit" | "--edition" | "--config" | "--config-path" | "--color" | "--file-lines" | "--print-config" | "--style-edition"
+        ) {
+            skip_value = true;
         } else if !s.starts_with('-') {
             let path = std::path::PathBuf::from(arg);
             let path = match (&spec.cwd, path.is_relative()) {
